@@ -36,10 +36,20 @@
  *  - conservation: every item is, at the end, in exactly one place (list, a thread's hands, a
  *    thread's private ring).
  *  Deliberate relaxations: try_pop_* may return NULL when it overlapped another operation (the
- *  trylock failed); parsec_list_sort is only run concurrently with knob conc_sort=1 (never
- *  generated): the mergesort empties the list head while it holds the lock and pop_front /
- *  pop_back test emptiness without the lock, so a concurrent pop may report "empty" on a list
- *  that never was -- see the report.
+ *  trylock failed).
+ *  Concurrent sort (T > 1, mode list, knob conc_sort=1, 40% of those plans).  pop_front / pop_back test
+ *  emptiness without the lock; since fix 96a1a25 the mergesort keeps head / tail pointing into the ring
+ *  of items while it sorts, so a concurrent pop cannot see a non-empty list as empty and the sort is
+ *  judged like every other operation.  Two variants:
+ *   - real_sort=0: OP_SORT = s31_sort_snapshot() (the shim repeats parsec_list_sort's body and reads the
+ *     result before it drops the lock), history judged by WGL as above;
+ *   - real_sort=1 (half of the conc_sort plans): OP_SORT = the REAL parsec_list_sort().  It returns
+ *     nothing, so there is no observation to put into a history: these plans are CONSERVATION-ONLY (as
+ *     C30 has).  Judged: every pointer handed out by an operation is an item nobody else holds; at the
+ *     final quiescent point every item is in exactly one place, the forward walk of the list agrees with
+ *     the backward links, and -- if no insertion was invoked or returned after the invocation of the
+ *     last sort (pops / removes do not disturb an order) -- the content is ordered by priority
+ *     (non-decreasing, the documented direction; ties in any order).  No linearizability verdict.
  */
 #include "../hx.h"
 #include "../../oracle/lin.h"
@@ -102,10 +112,12 @@ static const unsigned char op_modes[OP_N] = {
     [OP_SORT] = 1 << M_LIST, [OP_ADD_POS] = 1 << M_LIST, [OP_RING_PUSH] = 15, [OP_RING_FLUSH] = 15};
 
 enum { PR_TRYPOP_CONTENDED, PR_POP_EMPTY, PR_SORTED_TIE, PR_CHAIN_SORTED_RESTART, PR_REMOVE_HIT, PR_REMOVE_MISS,
-       PR_UNCHAIN_GE2, PR_SORT_TIES, PR_SORT_TIES_REORDERED, PR_RING_TIE, PR_RING_NEW_HEAD, PR_NOLOCK_OP, PR_N };
+       PR_UNCHAIN_GE2, PR_SORT_TIES, PR_SORT_TIES_REORDERED, PR_RING_TIE, PR_RING_NEW_HEAD, PR_NOLOCK_OP,
+       PR_REAL_SORT, PR_REAL_SORT_OVERLAP, PR_REAL_SORT_JUDGED, PR_N };
 static const char *const probe_names[] = {"trypop_failed_on_contention", "pop_on_empty", "sorted_insert_with_tie",
     "chain_sorted_restart_from_head", "remove_hit", "remove_miss", "unchain_len_ge2", "sort_with_ties",
-    "sort_reordered_ties(unstable)", "ring_push_sorted_before_equal", "ring_push_sorted_new_head", "nolock_variant_used"};
+    "sort_reordered_ties(unstable)", "ring_push_sorted_before_equal", "ring_push_sorted_new_head", "nolock_variant_used",
+    "real_parsec_list_sort_with_other_threads", "real_parsec_list_sort_overlapped_another_operation", "final_order_judged_after_real_sort"};
 
 #define MAXI 48
 #define MAXT 4
@@ -121,6 +133,9 @@ typedef struct {
     parsec_list_t *list;
     it_t *ghost;
     int mode, T, nitems, strict_sort, conc_sort;
+    /* conservation-only plans (real parsec_list_sort, T > 1): no history verdict; sorts = real sorts that
+     * returned; unsorted = an insertion was invoked or returned after the invocation of the last sort */
+    int cons_only, sorts, unsorted;
     item_t *items[MAXI];
     int prio[MAXI];
     int owned[MAXT][MAXI], nowned[MAXT];
@@ -399,12 +414,14 @@ static void do_op(ctx_t *c, int t, const hx_op_t *o)
         if (id < 0) return;
         it_t *it = &c->items[id]->super;
         h->arg[0] = id; h->narg = 1;
+        c->unsorted = 1;
         h->inv = sim_stamp();
         if (o->op == OP_PUSH_FRONT) d_push_front(c, nl, it);
         else if (o->op == OP_PUSH_BACK) d_push_back(c, nl, it);
         else if (o->op == OP_PUSH_SORTED) { if (nl) s31_nl_push_sorted(L(c), it, OFF); else s31_push_sorted(L(c), it, OFF); }
         else { if (nl) s31_nl_add_after(L(c), c->ghost, it); else s31_add_after(L(c), s31_ghost(L(c)), it); }
         h->ret = sim_stamp();
+        c->unsorted = 1;
         break;
     }
     case OP_CHAIN_FRONT: case OP_CHAIN_BACK: case OP_CHAIN_SORTED: {
@@ -414,11 +431,13 @@ static void do_op(ctx_t *c, int t, const hx_op_t *o)
         it_t *ring = build_ring(c, t, n, o->b, h);
         if (o->op == OP_CHAIN_SORTED)
             for (int j = 1; j < n; j++) if (c->prio[h->arg[j]] > c->prio[h->arg[j - 1]]) sim_probe(PR_CHAIN_SORTED_RESTART);
+        c->unsorted = 1;
         h->inv = sim_stamp();
         if (o->op == OP_CHAIN_FRONT) d_chain_front(c, nl, ring);
         else if (o->op == OP_CHAIN_BACK) d_chain_back(c, nl, ring);
         else { if (nl) s31_nl_chain_sorted(L(c), ring, OFF); else s31_chain_sorted(L(c), ring, OFF); }
         h->ret = sim_stamp();
+        c->unsorted = 1;
         break;
     }
     case OP_POP_FRONT: case OP_POP_BACK: case OP_TRY_POP_FRONT: case OP_TRY_POP_BACK: {
@@ -494,6 +513,13 @@ static void do_op(ctx_t *c, int t, const hx_op_t *o)
                 if (walk_list(c, &w, when)) return;
                 n = w.n;
                 for (int i = 0; i < n; i++) buf[i] = &c->items[w.s[i]]->super;
+            } else if (c->cons_only) {
+                /* the real locked sort, racing with the other threads; nothing is returned, nothing is observed here */
+                c->unsorted = 0;
+                s31_sort(L(c), OFF);
+                h->ret = sim_stamp();
+                c->sorts++;
+                sim_probe(PR_REAL_SORT);
             } else {
                 n = s31_sort_snapshot(L(c), OFF, buf, MAXI);
                 h->ret = sim_stamp();
@@ -574,16 +600,24 @@ static void do_op(ctx_t *c, int t, const hx_op_t *o)
         c->nring[t] = 0; c->ringp[t] = NULL;
         int front = (o->a & 1) && (c->mode == M_LIST || c->mode == M_DEQUE);
         h->op = c->mode == M_SORTED ? OP_CHAIN_SORTED : front ? OP_CHAIN_FRONT : OP_CHAIN_BACK;
+        c->unsorted = 1;
         h->inv = sim_stamp();
         if (c->mode == M_SORTED) { if (nl) s31_nl_chain_sorted(L(c), ring, OFF); else s31_chain_sorted(L(c), ring, OFF); }
         else if (front) d_chain_front(c, nl, ring);
         else d_chain_back(c, nl, ring);
         h->ret = sim_stamp();
+        c->unsorted = 1;
         break;
     }
     default: return;
     }
     if (nl) sim_probe(PR_NOLOCK_OP);
+    if (c->cons_only) {
+        /* conservation-only plan: the history is not judged; the stamps are kept for the overlap probe */
+        hx_hash(c->res, ((uint64_t)h->thr << 56) ^ ((uint64_t)h->op << 48) ^ ((uint64_t)(h->res + 1) << 32) ^ ((uint64_t)h->arg[0] << 8) ^ (uint64_t)h->narg);
+        if (c->nhist < LIN_MAX_OPS) c->hist[c->nhist++] = hloc;
+        return;
+    }
     if (!seq1 && c->nhist >= LIN_MAX_OPS) { c->res->discard = 1; c->res->discard_why = "history-too-long"; return; }
     int hi = seq1 ? 0 : c->nhist;
     c->hist[hi] = hloc;
@@ -633,7 +667,7 @@ static void worker(int t, void *arg)
         const hx_op_t *o = &c->plan->ops[k];
         if (o->thr != t) continue;
         if (c->res->vclass) return;
-        if (c->T > 1 && c->nhist >= LIN_MAX_OPS) break;
+        if (c->T > 1 && !c->cons_only && c->nhist >= LIN_MAX_OPS) break;
         do_op(c, t, o);
     }
 }
@@ -676,7 +710,33 @@ static void gen(hx_plan_t *p, hx_rng_t *r)
         hx_add_op(p, t, op, hx_below(r, 1000), hx_below(r, 1000), hx_below(r, 4));
     }
     /* drawn last so that the op stream of a seed does not depend on it */
-    hx_set_knob(p, "conc_sort", mode == M_LIST && T > 1 && hx_below(r, 100) < 40);
+    int conc = mode == M_LIST && T > 1 && hx_below(r, 100) < 40;
+    hx_set_knob(p, "conc_sort", conc);
+    /* half of them: the real parsec_list_sort, conservation-only verdict (see header).  No history bound
+     * there, so some more operations, mostly sorts and insertions / pops that can collide with them,
+     * on a list that has something to sort */
+    int real = conc && hx_below(r, 100) < 50;
+    hx_set_knob(p, "real_sort", real);
+    if (real) {
+        static const wop_t w_rs[] = {{OP_SORT, 36}, {OP_PUSH_FRONT, 12}, {OP_PUSH_BACK, 12}, {OP_POP_FRONT, 10}, {OP_POP_BACK, 10},
+            {OP_CHAIN_FRONT, 5}, {OP_CHAIN_BACK, 5}, {OP_REMOVE, 4}, {OP_ITERATE, 3}, {OP_UNCHAIN, 3}, {-1, 0}};
+        int rtot = 0;
+        for (int i = 0; w_rs[i].op >= 0; i++) rtot += w_rs[i].w;
+        hx_set_knob(p, "initial", hx_range(r, 2, 9));
+        hx_set_knob(p, "per_thread", hx_range(r, 2, 5));
+        int extra = (int)hx_range(r, 4, 14);
+        for (int i = 0; i < extra; i++) {
+            int t = (int)hx_below(r, T);
+            int x = (int)hx_below(r, rtot), op = w_rs[0].op;
+            for (int j = 0; w_rs[j].op >= 0; j++) { if (x < w_rs[j].w) { op = w_rs[j].op; break; } x -= w_rs[j].w; }
+            hx_add_op(p, t, op, hx_below(r, 1000), hx_below(r, 1000), hx_below(r, 4));
+        }
+        /* spread them over the threads' lists */
+        for (int i = p->nops - 1; i > 0; i--) {
+            int j = (int)hx_below(r, i + 1);
+            hx_op_t tmp = p->ops[i]; p->ops[i] = p->ops[j]; p->ops[j] = tmp;
+        }
+    }
 }
 
 /* ------------------------------------------------------------------ run */
@@ -695,6 +755,7 @@ static void run(const hx_plan_t *p, hx_result_t *res)
     if (c.mode < 0 || c.mode >= M_N) c.mode = 0;
     c.strict_sort = (int)hx_knob(p, "strict_sort", 0);
     c.conc_sort = (int)hx_knob(p, "conc_sort", 0);
+    c.cons_only = T > 1 && c.mode == M_LIST && c.conc_sort && hx_knob(p, "real_sort", 0) != 0;
     c.nitems = init + T * per;
     if (c.nitems > MAXI || c.nitems < 1) { res->discard = 1; res->discard_why = "item-count"; return; }
     long prange = hx_knob(p, "prio_range", 3), pbi = hx_knob(p, "prio_base", 1);
@@ -741,7 +802,23 @@ static void run(const hx_plan_t *p, hx_result_t *res)
                     hx_fail(res, "not-sorted", "quiescent list built only by sorted insertions is not non-increasing at position %d", i);
         for (int i = 0; i < final_obs.n; i++) hx_hash(res, (uint64_t)final_obs.s[i] + 1);
     }
-    if (!res->vclass && T > 1) {
+    if (!res->vclass && c.cons_only) {
+        /* conservation-only plan: content, links and conservation have been judged above.  Order: every
+         * insertion had returned before the last real sort was invoked => that sort ordered everything
+         * that is still there (ties in any order; direction as documented, see header) */
+        if (c.sorts && !c.unsorted) {
+            sim_probe(PR_REAL_SORT_JUDGED);
+            for (int i = 1; i < final_obs.n && !res->vclass; i++)
+                if (c.prio[(int)final_obs.s[i - 1]] > c.prio[(int)final_obs.s[i]]) {
+                    char a[300];
+                    seq_str(&c, &final_obs, a, sizeof(a));
+                    hx_fail(res, "wrong-sort", "no insertion after the last parsec_list_sort, but the quiescent list [%s] is not ordered by priority at position %d", a, i);
+                }
+        }
+        for (int i = 0, hit = 0; i < c.nhist && !hit; i++) if (c.hist[i].op == OP_SORT)
+            for (int j = 0; j < c.nhist && !hit; j++)
+                if (j != i && c.hist[j].inv < c.hist[i].ret && c.hist[i].inv < c.hist[j].ret) { sim_probe(PR_REAL_SORT_OVERLAP); hit = 1; }
+    } else if (!res->vclass && T > 1) {
         int order[LIN_MAX_OPS];
         int r = lin_check(&model, c.hist, c.nhist, &c, 3000000, m_final, order);
         if (r == 0) {
